@@ -87,4 +87,5 @@ class LinearCompositeFunction(MDOFunction):
         Returns:
             The evaluation of the function at x_vect.
         """
-        return self._matrix.T.dot(self._function.jac(self._matrix.dot(x_vect)))
+        jac = self._function.jac(self._matrix.dot(x_vect))
+        return self._matrix.T.dot(jac.T).T
